@@ -12,6 +12,11 @@ fi
 run1() {
 	x=$1; id=${x%%/*}
 	det=$(scripts/mutant.sh seeded/$x/patch.diff $id 2>&1 | tail -1)
+	if [ -n "${RECHECK_NOWRITE:-}" ]; then
+		# only report (used to see how much a detection depends on VERIF_SEED)
+		echo "$x: $det" | cut -c1-160
+		return
+	fi
 	python3 - "seeded/$x/meta.json" "$det" <<'PY'
 import json,sys
 f,det=sys.argv[1:3]
@@ -32,4 +37,4 @@ PY
 }
 export -f run1
 printf "%s\n" "${list[@]}" | xargs -P 4 -I{} bash -c 'run1 {}'
-python3 scripts/catches.py
+[ -n "${RECHECK_NOWRITE:-}" ] || python3 scripts/catches.py
